@@ -414,6 +414,33 @@ func (c *c16) buildEval1(n *ev, path string) lazy.Eval[int] {
 		add := func(e lazy.Eval[int], d int) lazy.Eval[int] {
 			return e.Map(func(v int) int { return (v + d) % evMod })
 		}
+		// arities 4..9: f computes a1 - sum(i * a_i) over the later arguments (position-weighted, so a permuted argument
+		// list shows); the arguments are chosen so that the net addition is n.c like for the small arities
+		hi := func(args ...int) lazy.Eval[int] {
+			c.enter(k)
+			defer c.leave(k)
+			d := args[0]
+			for i := 1; i < len(args); i++ {
+				d -= (i + 1) * args[i]
+			}
+			return add(c.buildEval(n.kids[0], path+".0"), d)
+		}
+		switch n.c % 9 {
+		case 3:
+			return lazy.TailCall4(func(a1, a2, a3, a4 int) lazy.Eval[int] { return hi(a1, a2, a3, a4) }, n.c+2*1+3*2+4*3, 1, 2, 3)
+		case 4:
+			return lazy.TailCall5(func(a1, a2, a3, a4, a5 int) lazy.Eval[int] { return hi(a1, a2, a3, a4, a5) }, n.c+2*1+3*2+4*3+5*4, 1, 2, 3, 4)
+		case 5:
+			return lazy.TailCall6(func(a1, a2, a3, a4, a5, a6 int) lazy.Eval[int] { return hi(a1, a2, a3, a4, a5, a6) }, n.c+2*1+3*2+4*3+5*4+6*5, 1, 2, 3, 4, 5)
+		case 6:
+			return lazy.TailCall7(func(a1, a2, a3, a4, a5, a6, a7 int) lazy.Eval[int] { return hi(a1, a2, a3, a4, a5, a6, a7) }, n.c+2*1+3*2+4*3+5*4+6*5+7*6, 1, 2, 3, 4, 5, 6)
+		case 7:
+			return lazy.TailCall8(func(a1, a2, a3, a4, a5, a6, a7, a8 int) lazy.Eval[int] { return hi(a1, a2, a3, a4, a5, a6, a7, a8) }, n.c+2*1+3*2+4*3+5*4+6*5+7*6+8*7, 1, 2, 3, 4, 5, 6, 7)
+		case 8:
+			return lazy.TailCall9(func(a1, a2, a3, a4, a5, a6, a7, a8, a9 int) lazy.Eval[int] {
+				return hi(a1, a2, a3, a4, a5, a6, a7, a8, a9)
+			}, n.c+2*1+3*2+4*3+5*4+6*5+7*6+8*7+9*8, 1, 2, 3, 4, 5, 6, 7, 8)
+		}
 		switch n.c % 3 {
 		case 0:
 			return lazy.TailCall1(func(a int) lazy.Eval[int] {
@@ -613,10 +640,11 @@ func (c *c16) evalTree() {
 func (c *c16) listCells() {
 	r := c.r
 	r.Case = "list"
-	kind := r.Choose(11, "listKind")
+	kind := r.Choose(20, "listKind")
 	n := r.Range(1, 6, "listLen")
 	c.stallN = r.Choose(3, "stalls")
-	names := [...]string{"fp.MakeList", "list.Generate", "list.GenerateFrom", "list.Recurrence1", "list.Recurrence2", "list.Map", "list.Zip", "list.Scan", "list.Collect", "iterator.ToList", "list.FlatMap"}
+	names := [...]string{"fp.MakeList", "list.Generate", "list.GenerateFrom", "list.Recurrence1", "list.Recurrence2", "list.Map", "list.Zip", "list.Scan", "list.Collect", "iterator.ToList", "list.FlatMap",
+		"list.Zip3", "list.ZipWithIndex", "list.Combine", "list.Concat", "list.FromSeq/FromSlice/ReverseSeq/ReverseSlice", "list.Ap", "list.Flatten", "list.FilterMap", "list.Map2"}
 	r.MixFingerprintS(names[kind])
 	r.MixFingerprint(uint64(n))
 	want := make([]int, n)
@@ -652,6 +680,124 @@ func (c *c16) listCells() {
 			}
 			return list.Of(v, v+100)
 		})
+	case 11, 12, 13, 14, 15, 16, 17, 18, 19:
+		// the remaining constructors of package list that build memoised cells or defer a callback
+		cgen := func(prefix string, m, base int) fp.List[int] {
+			ks := per(prefix)
+			return list.Generate(func(i int) fp.Option[int] {
+				r.Gate("gen")
+				if i < 0 || i > m {
+					r.Violate("generator-index", "generator %s called with index %d (length %d)", prefix, i, m)
+					return fp.None[int]()
+				}
+				if i == m {
+					return fp.None[int]()
+				}
+				return fp.Some(counted(ks[i], base+i))
+			})
+		}
+		switch kind {
+		case 11:
+			a, b := cgen("genA", n, 0), cgen("genB", n+1, 50)
+			base := make([]int, n)
+			for i := range base {
+				base[i] = 7 * i
+				want[i] = i*1000000 + 7*i*1000 + 50 + i
+			}
+			l = list.Map(list.Zip3(a, list.Of(base...), b), func(t fp.Tuple3[int, int, int]) int { return t.I1*1000000 + t.I2*1000 + t.I3 })
+		case 12:
+			l = list.Map(list.ZipWithIndex(cgen("gen", n, 30)), func(t fp.Tuple2[int, int]) int { return t.I1*1000 + t.I2 })
+			for i := range want {
+				want[i] = i*1000 + 30 + i
+			}
+		case 13:
+			n1 := r.Choose(n+1, "combineSplit")
+			l = list.Combine(cgen("genA", n1, 10), cgen("genB", n-n1, 500))
+			for i := range want {
+				if i < n1 {
+					want[i] = 10 + i
+				} else {
+					want[i] = 500 + i - n1
+				}
+			}
+		case 14:
+			if r.Choose(2, "concatKind") == 0 {
+				l = list.Concat(7, cgen("gen", n-1, 20))
+			} else {
+				l = list.Apply(7, cgen("gen", n-1, 20))
+			}
+			want[0] = 7
+			for i := 1; i < n; i++ {
+				want[i] = 20 + i - 1
+			}
+		case 15:
+			ks := per("fn")
+			base := make([]int, n)
+			for i := range base {
+				base[i] = i
+			}
+			var src fp.List[int]
+			rev := false
+			switch r.Choose(4, "fromKind") {
+			case 0:
+				src = list.FromSeq(fp.Seq[int](base))
+			case 1:
+				src = list.FromSlice(base)
+			case 2:
+				src, rev = list.ReverseSeq(fp.Seq[int](base)), true
+			default:
+				src, rev = list.ReverseSlice(base), true
+			}
+			for i := range want {
+				want[i] = i * 3
+				if rev {
+					want[i] = (n - 1 - i) * 3
+				}
+			}
+			l = list.Map(src, func(v int) int { return counted(ks[v], v*3) })
+		case 16:
+			ks := per("fn")
+			f := fp.Func1[int, int](func(v int) int { return counted(ks[v-40], v*2) })
+			l = list.Ap(list.Of(f), cgen("gen", n, 40))
+			for i := range want {
+				want[i] = (40 + i) * 2
+			}
+		case 17:
+			n1 := r.Choose(n+1, "flattenSplit")
+			l = list.Flatten(list.Of(cgen("genA", n1, 10), list.Empty[int](), cgen("genB", n-n1, 500)))
+			for i := range want {
+				if i < n1 {
+					want[i] = 10 + i
+				} else {
+					want[i] = 500 + i - n1
+				}
+			}
+		case 18:
+			first := c.counter("fn(first element)")
+			base := make([]int, 2*n)
+			for i := range base {
+				base[i] = i
+			}
+			for i := range want {
+				want[i] = 2*i + 100
+			}
+			l = list.FilterMap(list.Of(base...), func(v int) fp.Option[int] {
+				r.Gate("fn")
+				if v == 0 {
+					counted(first, 0)
+				}
+				if v%2 == 1 {
+					return fp.None[int]()
+				}
+				return fp.Some(v + 100)
+			})
+		default:
+			ks := per("fn")
+			l = list.Map2(list.Of(9), cgen("gen", n, 60), func(a, b int) int { return counted(ks[b-60], a*1000+b) })
+			for i := range want {
+				want[i] = 9000 + 60 + i
+			}
+		}
 	case 0:
 		hk, tk := per("head"), per("tail")
 		var mk func(i int) fp.List[int]
